@@ -29,7 +29,8 @@ from vlib import Run, zlit, qlit, coq_list, coq_opt, coq_bool
 warnings.simplefilter("ignore")
 logging.disable(logging.CRITICAL)
 
-IMPORTS = "From Coq Require Import QArith.\nFrom V Require Import Model.Resample Model.ResampleRun."
+IMPORTS = ("From Coq Require Import QArith Uint63.\nFrom V Require Import Model.Resample Model.ResampleRun.\n"
+           "Open Scope uint63_scope.")
 RTOL = F(1, 10**9)
 
 
@@ -86,18 +87,63 @@ def parse_inferred(idx):
     return "OtherFreq", s
 
 
+def ilit(n):
+    """primitive 63-bit integer literal (uint63_scope is open in the case files)"""
+    n = int(n)
+    if not 0 <= n < 2 ** 62:
+        raise ValueError("integer out of the uint63 literal range: %d" % n)
+    return str(n)
+
+
+def qvlit(x):
+    """Fraction | None -> qv term of Model/ResampleRun.v"""
+    if x is None:
+        return "QN"
+    x = F(x)
+    n, d = x.numerator, x.denominator
+    if d < 2 ** 62 and abs(n) < 2 ** 62:
+        return "(QV %d %d)" % (n, d) if n >= 0 else "(QM %d %d)" % (-n, d)
+    return "(QB (%d)%%Z %d%%positive)" % (n, d)
+
+
 def coq_readings(rs):
-    return coq_list(["(%s, %s)" % (zlit(t), coq_opt(v, qlit)) for t, v in rs])
+    return "(rds %s)" % coq_list(["(%s, %s)" % (ilit(t), qvlit(v)) for t, v in rs])
 
 
-def coq_zs(zs):
-    return coq_list([zlit(b) for b in zs])
+def rle(xs):
+    out = []
+    for x in xs:
+        if out and out[-1][1] == x:
+            out[-1][0] += 1
+        else:
+            out.append([1, x])
+    return out
+
+
+def coq_zs(bs):
+    """boundary list -> (bounds b0 [(count, day length); ...])"""
+    lens = [b - a for a, b in zip(bs, bs[1:])]
+    return "(bounds %s %s)" % (ilit(bs[0]), coq_list(["(%d, %d)" % (c, L) for c, L in rle(lens)]))
+
+
+def coq_runs(vals):
+    return coq_list(["(%d, %s)" % (c, qvlit(v)) for c, v in rle(vals)])
 
 
 def coq_class(obs):
     if obs[0] == "days":
-        return "(Days %s)" % coq_list([coq_opt(v, qlit) for v in obs[1]])
-    return {"ErrBilling": "ErrBilling", "ErrType": "ErrType"}.get(obs[1])
+        return "(ODays %s)" % coq_runs(obs[1])
+    return {"ErrBilling": "OErrBilling", "ErrType": "OErrType"}.get(obs[1])
+
+
+def label_check(stamps, bs):
+    """the implementation's row labels must be consecutive local midnights: returns the first label or None"""
+    if not stamps:
+        return bs[0]
+    if stamps[0] not in bs:
+        return None
+    j = bs.index(stamps[0])
+    return stamps[0] if list(bs[j:j + len(stamps)]) == list(stamps) else None
 
 
 GRAN = {"hourly": "Hourly", "daily": "Daily", "billing_monthly": "BillingMonthly",
@@ -293,7 +339,8 @@ def gen_billing(rng, k):
     fmt = rng.choice(["daily-temp", "daily-temp", "hourly-temp", "bare", "from_series", "from_series"])
     last_value = rng.choice([None, None, rng.randrange(1, 2 ** 12)])     # value on the final row (convention: ignored)
     return {"kind": "billing", "zone": z, "stamps": stamps, "den": den, "vals": vals, "est": est, "elec": elec,
-            "format": fmt, "style": style, "last_value": last_value}
+            "format": fmt, "style": style, "last_value": last_value,
+            "temp_align": "utc" if rng.random() < 0.25 else "local"}
 
 
 # =====================================================================================================
@@ -323,12 +370,12 @@ def coq_grid(cs, absent_as_nan=False):
     sl = []
     for x in cs["slots"]:
         if x[0] == "v":
-            sl.append("V %s" % zlit(x[1]))
+            sl.append("V %d" % x[1])
         elif x[0] == "nan" or absent_as_nan:
             sl.append("NaN")
         else:
             sl.append("Absent")
-    return "(grid_from %s %s %d%%positive %s)" % (zlit(cs["t0"]), zlit(cs["step"]), cs["den"], coq_list(sl))
+    return "(grid %s %s %d %s)" % (ilit(cs["t0"]), ilit(cs["step"]), cs["den"], coq_list(sl))
 
 
 # =====================================================================================================
@@ -376,9 +423,10 @@ def per_day(frame, bs, z):
     return acc, extra
 
 
-def temp_series(t_lo, t_hi, z, step=60):
-    """an hourly temperature feed covering [t_lo, t_hi] generously (values irrelevant for C08)"""
-    a = t_lo - (t_lo % 60) - 48 * 60
+def temp_series(t_lo, t_hi, z, step=60, align="local"):
+    """an hourly temperature feed covering [t_lo, t_hi] generously (values irrelevant for C08), on the hours of the
+    local clock (t_lo is a local midnight or slot) or on UTC hours (differs in zones with :30 / :45 offsets)"""
+    a = (t_lo if align == "local" else t_lo - (t_lo % 60)) - 48 * 60
     n = (t_hi - a) // step + 48 * (60 // step) + 1
     mins = [a + i * step for i in range(n)]
     return pd.Series(50.0 + (np.arange(n) % 24), index=tz_index(mins, z), name="temperature")
@@ -443,13 +491,28 @@ def impl_billing_class(cs):
     lastv = None if cs["last_value"] is None else F(cs["last_value"], cs["den"])
     end_day = tzdays.local_date(t_end, z)
     last_day_start = tzdays.day_start(end_day - dt.timedelta(days=1), z)      # the final row of a data frame is the
+    rows = None
     try:                                                                        # LAST DAY of the final period
         if fmt == "from_series":
             meter = series_of(per + [(t_end, lastv)], z, "observed")
-            temp = temp_series(per[0][0], t_end, z)
-            d = BillingBaselineData.from_series(meter, temp, is_electricity_data=cs["elec"])
-            # from_series moves the final stamp back by one day and blanks it
-            rows = per + [(t_end - 1440, None)]
+            temp = temp_series(per[0][0], t_end, z, align=cs.get("temp_align", "local"))
+
+            class Capture(BillingBaselineData):
+                """from_series builds a frame and hands it to the constructor: the frame is observed here (that step
+                is not modelled), the constructor's treatment of it is what the model mirrors"""
+                df_in = None
+
+                def __init__(self, df, is_electricity_data):
+                    Capture.df_in = df.copy()
+                    super().__init__(df, is_electricity_data)
+            try:
+                d = Capture.from_series(meter, temp, is_electricity_data=cs["elec"])
+            finally:
+                if Capture.df_in is not None:
+                    col = Capture.df_in["observed"].to_numpy()
+                    idx = minutes_of(Capture.df_in.index)
+                    keep = sorted({i for i, v in enumerate(col) if v == v} | {0, len(idx) - 1})
+                    rows = [(idx[i], fr(col[i])) for i in keep]
         else:
             if fmt == "bare":
                 idx = [t for t, _ in per] + [last_day_start]
@@ -482,9 +545,9 @@ def impl_billing_class(cs):
     except Exception as e:  # noqa
         name = type(e).__name__
         if name == "TypeError":
-            return ("err", "ErrType", str(e)[:200]), rows if "rows" in dir() else None, None
+            return ("err", "ErrType", str(e)[:200]), rows, None
         return ("err", name, str(e)[:300]), None, None
-    bs = tzdays.boundaries(rows[0][0], rows[-1][0], z)
+    bs = tzdays.boundaries(rows[0][0], rows[-1][0], z, extra_after=3)      # room for the closing stamp (end + 24 h)
     vals, extra = per_day(frame, bs, z)
     if extra:
         return ("err", "rows-outside-input-days", str(extra)), rows, bs
@@ -528,11 +591,49 @@ def expected_day(d):
     return None
 
 
-def oracle_subdaily_days(cs, bs, got, path, strict_missing=True):
+def interval_days(rows, bs):
+    """the statement's reading of a series, in exact arithmetic: row i is the constant rate v_i/(t_{i+1}-t_i) on
+    [t_i, t_{i+1}), the last row is open-ended.  Per bucket of bs: (minutes covered by a non-null rate, usage)"""
+    import bisect
+    out = [[0, F(0)] for _ in range(len(bs) - 1)]
+    for (a, v), (b, _) in zip(rows, rows[1:]):
+        if v is None or b <= a:
+            continue
+        j = max(0, bisect.bisect_right(bs, a) - 1)
+        while j < len(bs) - 1 and bs[j] < b:
+            ov = min(b, bs[j + 1]) - max(a, bs[j])
+            if ov > 0:
+                out[j][0] += ov
+                out[j][1] += v * ov / (b - a)
+            j += 1
+    return out
+
+
+def mechanism_dropna(rows, z, elec):
+    """what 'drop the missing readings, then spread' (the known finding C08-F1) predicts for the data class, per
+    bucket start: readings that are NaN (or zero, for electricity) are removed, each remaining reading is spread
+    until the next remaining one, the bucket of the last remaining reading counts as fully covered.
+    Only used to attribute a deviation that the oracle has already found."""
+    eff = [(t, v) for t, v in rows if v is not None and not (elec and v == 0)]
+    if len(eff) < 2:
+        return {}
+    bs = tzdays.boundaries(eff[0][0], eff[-1][0], z)
+    acc = interval_days(eff, bs)
+    out = {}
+    for j, (c, u) in enumerate(acc):
+        last = j == len(acc) - 1
+        cov = (F(1) if c > 0 else F(0)) if last else F(c, bs[j + 1] - bs[j])
+        out[bs[j]] = u / cov if (c > 0 and cov > F(1, 2)) else None
+    return out
+
+
+def oracle_subdaily_days(cs, bs, got, path, mech=None):
     """got: list of Fraction|None per bucket of bs.  The final day (it holds the open-ended last reading) is
-    excluded.  Returns [(signature, message)]"""
+    excluded.  mech: prediction of the known mechanism per bucket start (classification only).
+    Returns [(signature, message)]"""
     fails = []
     days = day_table(cs, bs)
+    any_missing = any(d["missing_after_first"] for d in days)
     for j, d in enumerate(days[:-1]):
         exp = expected_day(d)
         if fclose(got[j], exp):
@@ -546,11 +647,43 @@ def oracle_subdaily_days(cs, bs, got, path, strict_missing=True):
             dev = "full day differs from the sum of its readings"
         else:
             dev = "partial day not scaled by 1/coverage"
-        sig = {"path": path, "day": "missing-slots-after-first-reading" if d["missing_after_first"]
-               else ("leading-partial" if d["present"] < d["n"] else "full"), "deviation": dev}
+        sig = {"path": path, "deviation": dev}
+        if mech is not None:
+            explained = any_missing and bs[j] in mech and fclose(got[j], mech[bs[j]])
+            sig["cause"] = "missing-readings-dropped-before-spreading" if explained else "other"
         fails.append((sig, "%s: local day %d (%d of %d slots present, coverage %s): expected %s, got %s" % (
             path, j, d["present"], d["n"], c, None if exp is None else float(exp),
             None if got[j] is None else float(got[j]))))
+    return fails
+
+
+def oracle_asfreq(rows_in, bs, got, path):
+    """as_freq(..., 'D', include_coverage=True) on rows as given: every local day but the final one carries the usage
+    of the constant-rate intervals that fall into it, and its coverage is the covered share of its minutes; and
+    nothing is invented or lost: the buckets add up to the readings of the closed intervals.
+    got: {bucket start: (value, coverage)}"""
+    fails = []
+    acc = interval_days(rows_in, bs)
+    for j, (c, u) in enumerate(acc[:-1]):
+        if bs[j] not in got:
+            if c > 0:
+                fails.append(({"path": path, "deviation": "covered day has no row"}, "%s: local day %d has no row" % (path, j)))
+            continue
+        v, cov = got[bs[j]]
+        ev = u if c > 0 else None
+        ecov = F(c, bs[j + 1] - bs[j])
+        if not fclose(v, ev) or not fclose(cov, ecov):
+            full = c == bs[j + 1] - bs[j]
+            fails.append(({"path": path, "deviation": "full day differs from the sum of its readings" if full
+                           else "day usage / coverage differ from the interval arithmetic"},
+                          "%s: local day %d: usage %s coverage %s expected, got %s / %s" % (
+                              path, j, None if ev is None else float(ev), float(ecov), None if v is None else float(v),
+                              None if cov is None else float(cov))))
+    total_in = sum((v for _, v in rows_in[:-1] if v is not None), F(0))
+    total_out = sum((v for v, _ in got.values() if v is not None), F(0))
+    if not fclose(total_in, total_out):
+        fails.append(({"path": path, "deviation": "total not conserved"},
+                      "%s: readings total %s, daily rows total %s" % (path, float(total_in), float(total_out))))
     return fails
 
 
@@ -562,6 +695,22 @@ def oracle_conservation(rs, rows, path):
         return [({"path": path, "deviation": "total not conserved"},
                  "%s: readings total %s, daily rows total %s" % (path, float(total_in), float(total_out)))]
     return []
+
+
+def midnight_dst(bs, z):
+    """does one of the local days of bs start at a midnight that does not exist or happens twice?"""
+    for b in bs:
+        if tzdays.local_minute_of_day(b, z) != 0:
+            return True
+        if tzdays.offset(b, z) != tzdays.offset(b + 60, z) and tzdays.local_minute_of_day(b + 60, z) == 0:
+            return True
+    return False
+
+
+def raise_signature(path, obs, bs, z):
+    known = obs[1] == "ValueError" and ("nonexistent time" in obs[2] or "Cannot infer dst time" in obs[2])
+    return {"path": path, "raised": obs[1],
+            "zone_class": "midnight-dst" if (known and midnight_dst(bs, z)) else "other"}
 
 
 def cal_days(z, a, b):
@@ -598,18 +747,39 @@ def oracle_offcycle(z, rs_in, rows_out, kind, path):
     return fails
 
 
-def oracle_billing_days(cs, bs, got, path, rows_override=None):
-    """per period of the input: valid -> the days inside add up to the billed amount and none is missing;
-    off-cycle or unbilled -> every day inside is missing"""
+def oracle_billing_days(cs, bs, got, path, last_stamp=None):
+    """per period of the input: valid (25..35 days) -> the days inside add up to the billed amount and none is missing;
+    36..70 days (valid for a bi-monthly meter, off-cycle for a monthly one) -> conserved or dropped entirely;
+    off-cycle or unbilled -> every day inside is missing.
+    The cause attached to a deviation (classification of known findings only) is decided from the calendar alone."""
     import bisect
     z = cs["zone"]
     per = billing_rows(cs)
     stamps = cs["stamps"]
     lens = [cal_days(z, stamps[i], stamps[i + 1]) for i in range(len(stamps) - 1)]
     fails = []
-    ch = set(tzdays.local_date(x, z) for x in tzdays.dst_changes_cached(z))
     n = len(per)
-    seen_kept_mid = set()
+
+    def unbilled_at(i):
+        return per[i][1] is None or (cs["elec"] and per[i][1] == 0)
+    # runs that 'drop the unbilled rows, then spread' merges: a billed period and the unbilled ones that follow it
+    run_of = {}
+    i = 0
+    while i < n:
+        if not unbilled_at(i):
+            m = i
+            while m + 1 < n and unbilled_at(m + 1):
+                m += 1
+            if m > i:
+                for q in range(i, m + 1):
+                    run_of[q] = (i, m)
+            i = m + 1
+        else:
+            i += 1
+    df_final_value = cs["format"] != "from_series" and cs["last_value"] is not None \
+        and not (cs["elec"] and cs["last_value"] == 0)
+    last_day_len = stamps[-1] - tzdays.day_start(tzdays.local_date(stamps[-1], z) - dt.timedelta(days=1), z)
+    off_hour = last_stamp is not None and (last_stamp - max(b for b in bs if b <= last_stamp)) % 60 != 0
     for i, (a, v) in enumerate(per):
         b = stamps[i + 1]
         L = lens[i]
@@ -617,28 +787,38 @@ def oracle_billing_days(cs, bs, got, path, rows_override=None):
         j1 = bisect.bisect_left(bs, b)
         if j0 >= len(bs) or bs[j0] != a or j1 >= len(bs) or bs[j1] != b:
             continue        # not day-aligned (cannot happen with the generator)
+        final = i == n - 1
+        if final and df_final_value:
+            continue        # a frame whose final row carries a value is outside the documented convention
         inside = got[j0:j1]
         missing_all = all(x is None for x in inside)
         total = sum((x for x in inside if x is not None), F(0))
-        zero_elec = cs["elec"] and v == 0
-        unbilled = v is None or zero_elec
-        near_unbilled = unbilled or (i + 1 < n and (per[i + 1][1] is None or (cs["elec"] and per[i + 1][1] == 0))) \
-            or (i > 0 and (per[i - 1][1] is None or (cs["elec"] and per[i - 1][1] == 0)))
-        final = i == n - 1
-        end_on_dst = final and (tzdays.local_date(b, z) - dt.timedelta(days=1) in ch or tzdays.local_date(b, z) in ch)
         elapsed_days = (b - a) // 1440
 
         def sig(dev):
-            if near_unbilled:
-                cause = "unbilled-period-dropped-before-spreading"
-            elif elapsed_days != L and L in (25, 36, 71):
+            cause = "other"
+            one_day_tail = cs["format"] == "from_series" and lens[-1] == 1 and i >= n - 2
+            if i in run_of:
+                # the merged run is spread at one uniform rate (or dropped as a whole); the day that closes the data may
+                # be cut off by the closing conventions
+                k, m = run_of[i]
+                ja, jb = bisect.bisect_left(bs, stamps[k]), bisect.bisect_left(bs, stamps[m + 1])
+                seg = [(x, bs[ja + q + 1] - bs[ja + q]) for q, x in enumerate(got[ja:jb])]
+                if m == n - 1 and seg and seg[-1][0] is None:
+                    seg = seg[:-1]
+                rates = [x / ln for x, ln in seg if x is not None]
+                if all(x is None for x, _ in seg) or (len(rates) == len(seg) and all(fclose(r, rates[0]) for r in rates)):
+                    cause = "unbilled-period-dropped-before-spreading"
+            elif one_day_tail:
+                cause = "one-day-final-period-from-series"
+            elif elapsed_days != L and ((L == 25 and missing_all) or (L == 71 and not missing_all)):
                 cause = "elapsed-days-across-spring-forward"
-            elif end_on_dst:
+            elif final and last_day_len != 1440:
                 cause = "final-period-ends-24h-after-a-dst-day"
-            else:
-                cause = "other"
+            elif final and off_hour:
+                cause = "frame-ends-off-the-hour"
             return {"path": path, "deviation": dev, "cause": cause}
-        if unbilled:
+        if unbilled_at(i):
             if not missing_all:
                 fails.append((sig("unbilled period has usage"), "%s: period %d (%d days) has no bill but its days sum to %s" % (
                     path, i, L, float(total))))
@@ -654,11 +834,7 @@ def oracle_billing_days(cs, bs, got, path, rows_override=None):
                     path, i, L, float(v), float(total), sum(x is None for x in inside))))
             continue
         # 36..70 days: valid for a bi-monthly meter, off-cycle for a monthly one; either way all-or-nothing
-        if missing_all:
-            seen_kept_mid.add(False)
-        elif not any(x is None for x in inside) and fclose(total, v):
-            seen_kept_mid.add(True)
-        else:
+        if not missing_all and (any(x is None for x in inside) or not fclose(total, v)):
             fails.append((sig("period neither conserved nor dropped"), "%s: period %d of %d days billed %s, its days sum to %s" % (
                 path, i, L, float(v), float(total))))
     return fails
@@ -669,15 +845,15 @@ def oracle_billing_days(cs, bs, got, path, rows_override=None):
 # =====================================================================================================
 
 CASE_TYPE = {
-    "asfreq": "list reading * list Z * list (Z * option Q * Q)",
-    "downsample": "list reading * list Z * list (Z * option Q)",
-    "spread": "list reading * list Z * list (Z * option Q)",
-    "dailyclass": "bool * inferred * list reading * list Z * class_result",
-    "billclass": "bool * inferred * list reading * list Z * class_result",
+    "asfreq": "list reading * list Z * int * list (qv * qv)",
+    "downsample": "list reading * list Z * int * list qv",
+    "spread": "list reading * list Z * int * list (int * qv)",
+    "dailyclass": "bool * inferred * list reading * list Z * class_obs",
+    "billclass": "bool * inferred * list reading * list Z * class_obs",
     "cleanbill": "gran * list reading * list reading",
     "cleanbill_est": "gran * list brow * option (list reading)",
-    "gran": "inferred * list Z * gran * option gran",
-    "grid": "list reading * Z * Z",
+    "gran": "inferred * list int * gran * option gran",
+    "grid": "list reading * int * int",
 }
 CHECK_FN = {"asfreq": "check_asfreq", "downsample": "check_downsample", "dailyclass": "check_daily_class",
             "cleanbill": "check_clean_billing", "cleanbill_est": "check_clean_billing_est",
@@ -712,9 +888,7 @@ class Rec:
 
     # --- Streams
     def define(self, text):
-        k = "x" + vlib.sha(text)
-        self.events.append(("define", k, text))
-        return k
+        return text          # inlined: every shard parses only its own cases
 
     def add(self, stream, term, info):
         self.events.append(("add", stream, term, info))
@@ -784,7 +958,7 @@ def report(run, fails, cs, obs, gen):
 def short(obs):
     if obs and obs[0] in ("rows", "days"):
         return [obs[0], [[None if c is None else (float(c) if isinstance(c, F) else c) for c in (r if isinstance(r, tuple) else (r,))]
-                         for r in obs[1][:60]]]
+                         for r in obs[1][:int(os.environ.get("C08_SHORT", "60"))]]]
     return list(obs) if obs else obs
 
 
@@ -802,53 +976,44 @@ def process_subdaily(run, st, cs):
     run.dist("dst_in_series", cs["on_dst"])
     bsA = case_bounds(cs, rsA)
     bsB = case_bounds(cs, rsB)
-    gA = st.define(coq_grid(cs))
-    gB = st.define(coq_grid(cs, absent_as_nan=True))
-    kA = st.define(coq_zs(bsA))
-    kB = st.define(coq_zs(bsB))
-    amb = z == "America/Havana"
+    gA = coq_grid(cs)
+    gB = coq_grid(cs, absent_as_nan=True)
+    kA = coq_zs(bsA)
+    kB = coq_zs(bsB)
+    gen = "c08.gen_subdaily"
 
-    def known_pandas(obs):
-        return obs[0] == "err" and obs[1] == "ValueError" and "Cannot infer dst time" in obs[2]
-
-    # ---- as_freq on the series as generated (NaN rows and absent rows)
+    # ---- as_freq on the series as generated (NaN rows are rows, absent slots are not)
     obs = impl_asfreq(rsA, z)
     run.count(("asfreq", key))
     if obs[0] == "rows":
-        st.add("asfreq", "(%s, %s, %s)" % (gA, kA, coq_list(
-            ["(%s, %s, %s)" % (zlit(m), coq_opt(v, qlit), qlit(c)) for m, v, c in obs[1]])),
-            {"case": cs, "impl": short(obs), "model_term": "as_freq_cum %s %s" % (gA, kA)})
-        report(run, oracle_conservation(rsA, obs[1], "as_freq"), cs, short(obs), "c08.gen_subdaily")
-        # full days: every slot of the day present -> the sum of its readings, coverage 1
-        days = day_table(cs, bsA)
-        got = {m: (v, c) for m, v, c in obs[1]}
-        for j, d in enumerate(days[:-1]):
-            if d["present"] == d["n"] and bsA[j] in got:
-                v, c = got[bsA[j]]
-                if not fclose(v, d["sum"]) or not fclose(c, F(1)):
-                    report(run, [({"path": "as_freq", "day": "full", "deviation": "full day differs from the sum of its readings"},
-                                  "as_freq: fully covered day %d: sum of readings %s, got %s (coverage %s)" % (
-                                      j, float(d["sum"]), None if v is None else float(v), float(c)))], cs, short(obs),
-                           "c08.gen_subdaily")
+        first = label_check([m for m, _, _ in obs[1]], bsA)
+        if first is None:
+            report(run, [({"path": "as_freq", "deviation": "rows are not labelled by consecutive local midnights"},
+                          "as_freq: row labels are not the local midnights of the series")], cs, short(obs), gen)
+        else:
+            st.add("asfreq", "(%s, %s, %s, %s)" % (gA, kA, ilit(first), coq_list(
+                ["(%s, %s)" % (qvlit(v), qvlit(c)) for _, v, c in obs[1]])),
+                {"case": cs, "impl": short(obs), "model_term": "as_freq_cum %s %s" % (gA, kA)})
+        report(run, oracle_asfreq(rsA, bsA, {m: (v, c) for m, v, c in obs[1]}, "as_freq"), cs, short(obs), gen)
     else:
-        sig = {"path": "as_freq", "raised": obs[1], "zone_class": "ambiguous-midnight" if (amb and known_pandas(obs)) else "other"}
-        report(run, [(sig, "as_freq raised %s: %s" % (obs[1], obs[2]))], cs, list(obs), "c08.gen_subdaily")
+        report(run, [(raise_signature("as_freq", obs, bsA, z), "as_freq raised %s: %s" % (obs[1], obs[2]))], cs, list(obs), gen)
     # ---- downsample_and_clean_daily_data on the NaN-marked series: the strict statement
     obs = impl_downsample(rsB, z)
     run.count(("downsample", key))
     if obs[0] == "rows":
-        st.add("downsample", "(%s, %s, %s)" % (gB, kB, coq_list(
-            ["(%s, %s)" % (zlit(m), coq_opt(v, qlit)) for m, v in obs[1]])),
-            {"case": cs, "impl": short(obs), "model_term": "downsample_and_clean %s %s" % (gB, kB)})
+        first = label_check([m for m, _ in obs[1]], bsB)
+        if first is None or len(obs[1]) != len(bsB) - 1:
+            report(run, [({"path": "downsample", "deviation": "row count / labels"}, "downsample: %d rows for %d local days" % (
+                len(obs[1]), len(bsB) - 1))], cs, short(obs), gen)
+        else:
+            st.add("downsample", "(%s, %s, %s, %s)" % (gB, kB, ilit(first), coq_list([qvlit(v) for _, v in obs[1]])),
+                   {"case": cs, "impl": short(obs), "model_term": "downsample_and_clean %s %s" % (gB, kB)})
         got = dict(obs[1])
         vals = [got.get(bsB[j]) for j in range(len(bsB) - 1)]
-        if len(obs[1]) != len(bsB) - 1:
-            report(run, [({"path": "downsample", "deviation": "row count"}, "downsample: %d rows for %d local days" % (
-                len(obs[1]), len(bsB) - 1))], cs, short(obs), "c08.gen_subdaily")
-        report(run, oracle_subdaily_days(cs, bsB, vals, "downsample_and_clean_daily_data"), cs, short(obs), "c08.gen_subdaily")
+        report(run, oracle_subdaily_days(cs, bsB, vals, "downsample_and_clean_daily_data"), cs, short(obs), gen)
     else:
-        sig = {"path": "downsample", "raised": obs[1], "zone_class": "ambiguous-midnight" if (amb and known_pandas(obs)) else "other"}
-        report(run, [(sig, "downsample_and_clean_daily_data raised %s: %s" % (obs[1], obs[2]))], cs, list(obs), "c08.gen_subdaily")
+        report(run, [(raise_signature("downsample", obs, bsB, z), "downsample_and_clean_daily_data raised %s: %s" % (
+            obs[1], obs[2]))], cs, list(obs), gen)
     # ---- the data class end to end
     how = run.rng.choice(["baseline-df", "baseline-df", "reporting-df", "baseline-series", "reporting-series"])
     rs_in = rsA if run.rng.random() < 0.6 else rsB
@@ -860,34 +1025,34 @@ def process_subdaily(run, st, cs):
     inf, inf_s = parse_inferred(tz_index([t for t, _ in eff], z))
     run.dist("inferred_freq", inf_s)
     bs = tzdays.boundaries(rows[0][0], rows[-1][0], z)
+    case = dict(cs, how=how, absent_as_nan=use_B)
     if obs[0] == "days" or obs[1] in ("ErrBilling", "ErrType"):
-        rk = st.define(coq_readings(rows)) if rows is not rs_in else (gB if use_B else gA)
-        bk = st.define(coq_zs(bs))
+        rk = coq_readings(rows) if rows is not rs_in else (gB if use_B else gA)
+        bk = coq_zs(bs)
         st.add("dailyclass", "(%s, %s, %s, %s, %s)" % (coq_bool(cs["elec"]), inf, rk, bk, coq_class(obs)),
-               {"case": dict(cs, how=how, absent_as_nan=use_B), "impl": short(obs),
+               {"case": case, "impl": short(obs),
                 "model_term": "daily_class %s %s %s %s" % (coq_bool(cs["elec"]), inf, rk, bk)})
     if obs[0] == "days":
         # oracle on the days of the whole input (rows trimmed by from_series only lose all-missing edge days)
-        full_bs = bsB
-        vals = []
         got = dict(zip(bs[:-1], obs[1]))
-        vals = [got.get(b) for b in full_bs[:-1]]
+        vals = [got.get(b) for b in bsB[:-1]]
         csx = dict(cs, as_class=True)
-        report(run, oracle_subdaily_days(csx, full_bs, vals, "daily-data-class"), dict(cs, how=how, absent_as_nan=use_B),
-               short(obs), "c08.gen_subdaily")
+        fails = oracle_subdaily_days(csx, bsB, vals, "daily-data-class", mech=mechanism_dropna(rows, z, cs["elec"]))
+        report(run, fails, case, short(obs), gen)
+        run.dist("class_days_deviating", min(len(fails), 3))
         run.sample({"stream": "dailyclass", "zone": z, "step": cs["step"], "how": how, "gaps": cs["gap_classes"],
                     "days": len(vals), "first_days": [None if v is None else float(v) for v in vals[:4]]})
     else:
-        sig = {"path": "daily-data-class", "raised": obs[1],
-               "zone_class": "ambiguous-midnight" if (amb and known_pandas(obs)) else "other"}
-        report(run, [(sig, "%s raised %s: %s" % (how, obs[1], obs[2]))], dict(cs, how=how), list(obs), "c08.gen_subdaily")
-    # ---- lemma minute_grid_eq executed on one bucket of a short prefix (the 1-minute grid is slow in Coq)
-    if run.rng.random() < 0.25:
+        report(run, [(raise_signature("daily-data-class", obs, bs, z), "%s raised %s: %s" % (how, obs[1], obs[2]))],
+               case, list(obs), gen)
+    # ---- lemma minute_grid_eq executed on one bucket of a short window (the 1-minute grid is slow in Coq)
+    if run.rng.random() < 0.08:
         j = run.rng.randrange(0, len(bsA) - 1)
         lo, hi = bsA[j], bsA[j + 1]
-        sub = [r for r in rsA if lo - 3 * 1440 <= r[0] <= hi + 3 * 1440]
+        sub = [r for r in rsA if lo - 1440 <= r[0] <= hi + 1440]
         if len(sub) >= 2:
-            st.add("grid", "(%s, %s, %s)" % (coq_readings(sub), zlit(lo), zlit(hi)), {"case": {"rs": str(sub[:5]), "lo": lo, "hi": hi}})
+            st.add("grid", "(%s, %s, %s)" % (coq_readings(sub), ilit(lo), ilit(hi)),
+                   {"case": {"rs": str(sub[:5]), "lo": lo, "hi": hi}})
 
 
 def process_daily(run, st, cs):
@@ -903,13 +1068,20 @@ def process_daily(run, st, cs):
     inf, inf_s = parse_inferred(tz_index([t for t, _ in eff], z))
     run.dist("inferred_freq", inf_s)
     bs = tzdays.boundaries(rows[0][0], rows[-1][0], z)
+    case = dict(cs, how=how)
     if obs[0] == "days" or obs[1] in ("ErrBilling", "ErrType"):
-        rk = st.define(coq_readings(rows))
-        bk = st.define(coq_zs(bs))
+        rk = coq_readings(rows)
+        bk = coq_zs(bs)
         st.add("dailyclass", "(%s, %s, %s, %s, %s)" % (coq_bool(cs["elec"]), inf, rk, bk, coq_class(obs)),
-               {"case": dict(cs, how=how), "impl": short(obs),
+               {"case": case, "impl": short(obs),
                 "model_term": "daily_class %s %s %s %s" % (coq_bool(cs["elec"]), inf, rk, bk)})
+    # the statement's granularity rule: a series whose typical (median) spacing is one day is daily
+    gaps = sorted(b[0] - a[0] for a, b in zip(eff, eff[1:]))
+    med = median(gaps) if gaps else 1440
+    run.dist("daily_median_spacing", "1 day" if med == 1440 else ("<1 day" if med < 1440 else ">1 day"))
     if obs[0] == "days":
+        if med != 1440 and inf_s is None:
+            return          # not a daily series by the median rule (spread or aggregated; covered by the other streams)
         # daily readings pass through: each local day shows its reading, days without one are missing
         exp = {}
         for t, v in rs:
@@ -920,14 +1092,14 @@ def process_daily(run, st, cs):
                 report(run, [({"path": "daily-data-class", "deviation": "daily reading changed"},
                               "daily reading of local day %d: input %s, data object %s" % (
                                   j, exp.get(b) and float(exp[b]), obs[1][j] and float(obs[1][j])))],
-                       dict(cs, how=how), short(obs), "c08.gen_daily")
+                       case, short(obs), "c08.gen_daily")
     elif obs[1] == "ErrBilling":
-        # a sparse daily series mis-detected as billing data
-        report(run, [({"path": "daily-data-class", "raised": "ValueError-billing", "deviation": "daily series rejected"},
-                      "daily series rejected as billing data: %s" % obs[2])], dict(cs, how=how), list(obs), "c08.gen_daily")
+        if med == 1440 or (inf_s is not None and inf_s.endswith("D") and inf_s in ("D", "1D")):
+            report(run, [({"path": "daily-data-class", "raised": "ValueError-billing", "deviation": "daily series rejected"},
+                          "daily series rejected as billing data: %s" % obs[2])], case, list(obs), "c08.gen_daily")
     else:
-        report(run, [({"path": "daily-data-class", "raised": obs[1], "zone_class": "other"},
-                      "%s raised %s: %s" % (how, obs[1], obs[2]))], dict(cs, how=how), list(obs), "c08.gen_daily")
+        report(run, [(raise_signature("daily-data-class", obs, bs, z), "%s raised %s: %s" % (how, obs[1], obs[2]))],
+               case, list(obs), "c08.gen_daily")
 
 
 def process_billing(run, st, cs):
@@ -962,7 +1134,12 @@ def process_billing(run, st, cs):
                     ck = st.define(coq_readings(obs[1]))
                     bk = st.define(coq_zs(bs))
                     if o2[0] == "rows":
-                        st.add("spread", "(%s, %s, %s)" % (ck, bk, coq_readings(o2[1])),
+                        first = label_check([m for m, _ in o2[1]], bs)
+                        if first is None:
+                            report(run, [({"path": "as_freq(billing)", "deviation": "rows are not labelled by consecutive local midnights"},
+                                          "as_freq: row labels are not local midnights")], cs, short(o2), "c08.gen_billing")
+                            continue
+                        st.add("spread", "(%s, %s, %s, %s)" % (ck, bk, ilit(first), coq_runs([v for _, v in o2[1]])),
                                {"case": dict(cs, call="as_freq after " + kind), "impl": short(o2),
                                 "model_term": "as_freq_cum %s %s" % (ck, bk)})
                         report(run, oracle_conservation(obs[1], o2[1], "as_freq(billing)"), cs, short(o2), "c08.gen_billing")
@@ -980,9 +1157,8 @@ def process_billing(run, st, cs):
                                               "as_freq: period %d billed %s, its days sum to %s" % (i, v and float(v), float(tot)))],
                                        cs, short(o2), "c08.gen_billing")
                     else:
-                        report(run, [({"path": "as_freq(billing)", "raised": o2[1], "zone_class": "ambiguous-midnight"
-                                       if "Cannot infer dst" in o2[2] else "other"},
-                                      "as_freq raised %s: %s" % (o2[1], o2[2]))], cs, list(o2), "c08.gen_billing")
+                        report(run, [(raise_signature("as_freq(billing)", o2, bs, z), "as_freq raised %s: %s" % (o2[1], o2[2]))],
+                               cs, list(o2), "c08.gen_billing")
         else:
             report(run, [({"path": "clean_billing_data", "raised": obs[1]}, "clean_billing_data raised %s: %s" % (obs[1], obs[2]))],
                    dict(cs, call=kind), list(obs), "c08.gen_billing")
@@ -992,7 +1168,7 @@ def process_billing(run, st, cs):
         est = list(cs["est"]) + [False]
         obs = impl_clean_billing(rs, z, kind, est=est)
         run.count(("cleanbill_est", key))
-        rows_t = coq_list(["(%s, %s, %s)" % (zlit(t), coq_opt(v, qlit), coq_bool(e)) for (t, v), e in zip(rs, est)])
+        rows_t = "(brows %s)" % coq_list(["(%s, %s, %s)" % (ilit(t), qvlit(v), coq_bool(e)) for (t, v), e in zip(rs, est)])
         if obs[0] == "rows":
             exp = "(Some %s)" % coq_readings(obs[1])
         elif obs[1] == "ValueError" and "Cannot mask" in obs[2]:
@@ -1023,7 +1199,7 @@ def process_billing(run, st, cs):
         inf, inf_s = parse_inferred(tz_index([t for t, _ in eff], z))
         run.dist("inferred_freq", inf_s if inf_s is None or not inf_s[0].isdigit() else "nD")
         if bs is None:
-            bs = tzdays.boundaries(rows[0][0], rows[-1][0], z)
+            bs = tzdays.boundaries(rows[0][0], rows[-1][0], z, extra_after=3)
         if obs[0] == "days" or obs[1] == "ErrType":
             rk2 = st.define(coq_readings(rows))
             bk2 = st.define(coq_zs(bs))
@@ -1031,12 +1207,20 @@ def process_billing(run, st, cs):
                    {"case": cs, "impl": short(obs),
                     "model_term": "billing_class %s %s %s %s" % (coq_bool(cs["elec"]), inf, rk2, bk2)})
     if obs[0] == "days":
-        report(run, oracle_billing_days(cs, bs, obs[1], "billing-data-class"), cs, short(obs), "c08.gen_billing")
+        report(run, oracle_billing_days(cs, bs, obs[1], "billing-data-class", last_stamp=rows[-1][0]), cs, short(obs),
+               "c08.gen_billing")
         run.sample({"stream": "billclass", "zone": z, "format": cs["format"], "periods": len(per),
                     "days": len(obs[1]), "non_null_days": sum(v is not None for v in obs[1])})
     else:
-        weekly = rows is not None and obs[1] == "ErrType"
-        sig = {"path": "billing-data-class", "raised": obs[1], "cause": "regular-cycle-inferred-as-weekly" if weekly else "other"}
+        if obs[1] == "ErrType":
+            billed = [t for t, v in per if v is not None and not (cs["elec"] and v == 0)]
+            _, inf_in = parse_inferred(tz_index(billed + ([cs["stamps"][-1]] if cs["format"] == "from_series" else []), z))
+            _, inf_in2 = parse_inferred(tz_index(billed, z))
+            weekly = "Week" in obs[2] and any(re.match(r"\d*W", x or "") for x in (inf_in, inf_in2))
+            sig = {"path": "billing-data-class", "raised": "TypeError",
+                   "cause": "regular-cycle-inferred-as-weekly" if weekly else "other"}
+        else:
+            sig = raise_signature("billing-data-class", obs, tzdays.boundaries(cs["stamps"][0], cs["stamps"][-1], z), z)
         report(run, [(sig, "BillingBaselineData (%s) raised %s: %s" % (cs["format"], obs[1], obs[2]))], cs, list(obs), "c08.gen_billing")
 
 
@@ -1073,9 +1257,9 @@ def process_gran(run, st, rng, n):
         except TypeError:
             got, exp = "TypeError", "None"
         run.count(("gran", vlib.sha(ts), dflt), nontrivial=len(ts) > 1)
-        st.add("gran", "(%s, %s, %s, %s)" % (inf, coq_zs(ts), GRAN[dflt], exp),
+        st.add("gran", "(%s, %s, %s, %s)" % (inf, coq_list([ilit(x) for x in ts]), GRAN[dflt], exp),
                {"case": {"ts": ts, "zone": z, "default": dflt, "inferred": inf_s}, "impl": got,
-                "model_term": "granularity %s %s %s" % (inf, coq_zs(ts), GRAN[dflt])})
+                "model_term": "granularity %s (map zi %s) %s" % (inf, coq_list([ilit(x) for x in ts]), GRAN[dflt])})
 
 
 # =====================================================================================================
